@@ -379,5 +379,22 @@ let gen_case r k =
       if (k / 20) mod 3 = 2 then run_decode ~tag ~s b (tail_for r) else run_parse ~tag ~s b (tail_for r)
     end
 
-let gen seed n = for k = 0 to n - 1 do gen_case (rng_for seed k) k done
+(* EVERY root element count 0..140 (arrays) and pair count 0..130 (objects) once per run, through DecodeType: the container
+   header word is count | flags, so particular counts make its first byte look like something else ('[' = 91, '{' = 123,
+   '"' = 34 ...; seeded change C06-12: "already JSON text" pass-through on a leading '[' or '{') *)
+let count_sweep seed =
+  for n = 0 to 140 do
+    let r = rng_for seed (4000000 + n) in
+    let j = JArr (List.init n (fun i -> match (i + n) mod 3 with 0 -> JNull | 1 -> JBool true | _ -> JBool false)) in
+    run_decode ~tag:"root_arr_count_sweep" ~s:(c_gval (x_expected j)) (enc_jsonb j) (tail_for r)
+  done;
+  for n = 0 to 130 do
+    let r = rng_for seed (4100000 + n) in
+    budget := 1000;
+    let ks = gen_keys r n ~small:true in
+    let j = JObj (List.mapi (fun i k -> (k, if i mod 2 = 0 then JNull else JBool (i mod 4 = 1))) ks) in
+    if wf_jsonb j then run_decode ~tag:"root_obj_count_sweep" ~s:(c_gval (x_expected j)) (enc_jsonb j) (tail_for r)
+  done
+
+let gen seed n = for k = 0 to n - 1 do gen_case (rng_for seed k) k done; count_sweep seed
 let () = main gen
